@@ -2,6 +2,7 @@ package c10
 
 import (
 	"fmt"
+	"runtime"
 	"sync"
 	"sync/atomic"
 	"testing"
@@ -43,6 +44,11 @@ func probe(ctl *hookctl.Ctl, idx int, point string, rngTwo bool) (key, msg strin
 	db.Start()
 	defer db.Stop()
 	tabs := concw.NewTables(db, "t", 4)
+	if idx%2 == 1 {
+		// W holds the tables with the higher lock sequence numbers, the probes use the lower ones (a goroutine that takes
+		// locks it does not need - e.g. the collector - then blocks on W's table while holding the probes' tables)
+		tabs[0], tabs[1], tabs[2], tabs[3] = tabs[3], tabs[2], tabs[1], tabs[0]
+	}
 	hW := fmt.Sprintf("W%d", idx)
 	W := db.NewHandle(hW)
 	abort := point == "abort.beforeUnlock"
@@ -131,6 +137,14 @@ func probe(ctl *hookctl.Ctl, idx int, point string, rngTwo bool) (key, msg strin
 		}
 		w2 := h.WriteTxn(tabs[2])
 		w2.Abort()
+		// the collector has been triggered by the iterator's marks/close above: give it a round, then use both tables again
+		time.Sleep(3 * time.Millisecond)
+		for k := 0; k < 3; k++ {
+			w3 := h.WriteTxn(tabs[2], tabs[3])
+			tabs[2].Insert(w3, &concw.Row{ID: "q", V: int64(k)})
+			w3.Commit()
+			time.Sleep(time.Millisecond)
+		}
 	}
 	doneP := make(chan struct{})
 	go func() { defer close(doneP); disjoint() }()
@@ -188,6 +202,49 @@ func TestVerif_Probes(t *testing.T) {
 			}
 		}
 	}
+	// tables registered at the same moment from several goroutines must still get a total lock order: pairwise distinct
+	// sequence numbers (equal numbers let WriteTxn(a,b) and WriteTxn(b,a) take the two locks in opposite orders)
+	{
+		rounds := vkit.N(3000, 60000)
+		dups := 0
+		for round := 0; round < rounds && dups == 0; round++ {
+			db := statedb.New()
+			const k = 8
+			var wg sync.WaitGroup
+			var ready, goFlag atomic.Int32
+			tbls := make([]statedb.RWTable[*concw.Row], k)
+			for g := 0; g < k; g++ {
+				wg.Add(1)
+				go func(g int) {
+					defer wg.Done()
+					ready.Add(1)
+					for goFlag.Load() == 0 { // spin barrier: all goroutines enter NewTable at the same instant
+					}
+					tbls[g], _ = statedb.NewTable(db, fmt.Sprintf("c%d", g), concw.IDIndex)
+				}(g)
+			}
+			for ready.Load() < k {
+				runtime.Gosched()
+			}
+			goFlag.Store(1)
+			wg.Wait()
+			seen := map[uint64]int{}
+			for g, tb := range tbls {
+				if tb == nil {
+					continue
+				}
+				q := statedb.VerifTableLockSeq(tb)
+				if o, dup := seen[q]; dup {
+					dups++
+					r.Violation("duplicate-lock-sequence", round, map[string]any{"message": fmt.Sprintf("tables c%d and c%d registered concurrently share lock sequence number %d: their locks have no fixed order", o, g, q)})
+					break
+				}
+				seen[q] = g
+			}
+			r.Count("concurrent_registration_rounds", 1)
+		}
+		r.Case(vkit.NewHash().Str("concurrent-registration").Sum(), true)
+	}
 	// a rejected registration (duplicate name) must leave nothing locked: commits and registrations afterwards complete
 	{
 		db := statedb.New()
@@ -236,6 +293,8 @@ func stressRun(r *vkit.Run, ctl *hookctl.Ctl, idx int) {
 	tabs := concw.NewTables(db, "t", ntab)
 	var progress atomic.Int64
 	var wg sync.WaitGroup
+	var extraMu sync.Mutex
+	var extra []statedb.RWTable[*concw.Row]
 	stop := make(chan struct{})
 	for w := 0; w < nworkers; w++ {
 		wg.Add(1)
@@ -254,7 +313,20 @@ func stressRun(r *vkit.Run, ctl *hookctl.Ctl, idx int) {
 						idxs[i] = wr.IntN(ntab)
 						metas[i] = tabs[idxs[i]]
 					}
+					// tables registered while the run is in flight take part too
+					var mine []statedb.RWTable[*concw.Row]
+					extraMu.Lock()
+					for k := 0; k < 2 && len(extra) > 0; k++ {
+						e := extra[wr.IntN(len(extra))]
+						mine = append(mine, e)
+						metas = append(metas, e)
+					}
+					extraMu.Unlock()
+					wr.Shuffle(len(metas), func(a, b int) { metas[a], metas[b] = metas[b], metas[a] })
 					wt := h.WriteTxn(metas...)
+					for _, e := range mine {
+						e.Insert(wt, &concw.Row{ID: "x", V: int64(o)})
+					}
 					for _, ti := range idxs {
 						id := fmt.Sprint(wr.IntN(6))
 						if wr.IntN(3) == 0 {
@@ -294,7 +366,11 @@ func stressRun(r *vkit.Run, ctl *hookctl.Ctl, idx int) {
 					if wr.IntN(3) == 0 {
 						statedb.NewTable(h, "t0", concw.IDIndex) // rejected: duplicate name
 					} else {
-						statedb.NewTable(h, fmt.Sprintf("n%dw%do%d", idx%100, w, o), concw.IDIndex)
+						if nt, err := statedb.NewTable(h, fmt.Sprintf("n%dw%do%d", idx%100, w, o), concw.IDIndex); err == nil {
+							extraMu.Lock()
+							extra = append(extra, nt)
+							extraMu.Unlock()
+						}
 					}
 				default:
 					rt := h.ReadTxn()
@@ -350,6 +426,21 @@ loop:
 	if verdict == "completed" {
 		db.Stop()
 	}
+	// the ordering of table locks relies on pairwise distinct sequence numbers
+	seqs := map[uint64]string{}
+	extraMu.Lock()
+	all := append([]statedb.RWTable[*concw.Row]{}, tabs...)
+	all = append(all, extra...)
+	extraMu.Unlock()
+	for _, tb := range all {
+		q := statedb.VerifTableLockSeq(tb)
+		if other, dup := seqs[q]; dup {
+			r.Violation("duplicate-lock-sequence", idx, map[string]any{"message": fmt.Sprintf("tables %s and %s (registered concurrently) have the same lock sequence number %d: WriteTxn(a,b) and WriteTxn(b,a) can take them in opposite orders", other, tb.Name(), q)})
+			break
+		}
+		seqs[q] = tb.Name()
+	}
+	r.Count("tables_registered_in_flight", int64(len(all)-len(tabs)))
 	r.Count("operations_completed", progress.Load())
 	r.Count("runs_"+verdict, 1)
 	r.Case(vkit.NewHash().Int(int64(idx)).Int(int64(ntab)).Int(int64(nworkers)).Sum(), nworkers >= 2)
